@@ -1219,7 +1219,7 @@ def chunk_reduce(
         seen_groups = _unique(group_idx)
 
     order = "C"
-    if nax > 1:
+    if nax >= 1:
         needs_broadcast = any(
             group_idx.shape[ax] != array.shape[ax] and group_idx.shape[ax] == 1 for ax in range(-nax, 0)
         )
